@@ -71,6 +71,16 @@ def gen_case(seed, tier, index=0):
         if rng.chance(0.06):
             p["license"] = p["license"] + "\n The full licence text\n .\n second paragraph"
         paras.append(p)
+    if rng.chance(0.15):
+        # two paragraphs that say exactly the same thing, with an overlapping one in between: the later, narrower
+        # paragraph must keep winning over the one in between
+        same = {"copyright": "2020 Jane Doe", "license": "MIT"}
+        paras = [dict(same, files="*"), {"files": "src/*", "copyright": "2021 Example Corp", "license": "0BSD"},
+                 dict(same, files=rng.pick(["src/core/*", "src/main.c", "src/a/*"]))] + paras[:1]
+        for extra in ("src/core/x.py", "src/main.c", "src/a/c.c", "src/abc.c"):
+            if extra not in [f["path"] for f in files]:
+                files.append({"path": extra, "content": "plain content\n"})
+                names.append(extra)
     if rng.chance(0.2) and names:
         # Debian style: the paragraph's copyright line is literally the notice one of its files carries itself
         plain = [n for n in names if not set(n) & set("\\*?")]  # a file name with these characters is not its own pattern
